@@ -791,6 +791,31 @@ class SymBytes:
     def startswith(self, p):
         return bytes(self.concrete()).startswith(p)
 
+    def find(self, sub, start=0, end=None):
+        """first position of sub: one fork per candidate position whose bytes may match"""
+        self._realise()
+        pat = [sub] if isinstance(sub, int) else list(SymBytes.of(sub))
+        n, m = len(self.c), len(pat)
+        start, end, _ = slice(conc(start), None if end is None else conc(end)).indices(n)
+        for i in range(start, end - m + 1):
+            ok = True
+            for j in range(m):
+                e = (self.c[i + j] == pat[j])
+                if e is False:
+                    ok = False
+                    break
+                if e is not True:
+                    ok = e if ok is True else (ok & e)
+            if ok is True or (ok is not False and bool(ok)):
+                return i
+        return -1 if m or start > end else start
+
+    def index(self, sub, start=0, end=None):
+        i = self.find(sub, start, end)
+        if i < 0:
+            raise ValueError("subsection not found")
+        return i
+
     def __bytes__(self):
         return bytes(self.concrete())
 
